@@ -99,6 +99,104 @@ void h_sign_side(void)
 	ASSUME(hit);
 	V_REACH();
 }
+#elif defined(LOOKUP)
+/* ---- x509_certs_get_cert_by_issuer_and_serial_number (signer / recipient certificate lookup): the first certificate whose issuer AND serial number equal the wanted ones exactly ---- */
+#include <gmssl/x509.h>
+#define NC 3
+static uint8_t l_iss[NC][3], l_ser[NC][3]; static size_t l_il[NC], l_sl[NC]; static uint8_t l_list[NC];
+int x509_cert_from_der(const uint8_t **a, size_t *alen, const uint8_t **in, size_t *inlen) { if (*inlen == 0) return -1; *a = *in; *alen = 1; (*in)++; (*inlen)--; return 1; }
+int x509_cert_get_issuer_and_serial_number(const uint8_t *a, size_t alen, const uint8_t **issuer, size_t *issuer_len, const uint8_t **serial, size_t *serial_len)
+{ int i = a[0]; __CPROVER_assert(i < NC, "idx"); *issuer = l_iss[i]; *issuer_len = l_il[i]; *serial = l_ser[i]; *serial_len = l_sl[i]; return 1; }
+static int same(const uint8_t *a, size_t al, const uint8_t *b, size_t bl) { if (al != bl) return 0; for (size_t i = 0; i < 3; i++) if (i < al && a[i] != b[i]) return 0; return 1; }
+int x509_name_equ(const uint8_t *a, size_t alen, const uint8_t *b, size_t blen) { return same(a, alen, b, blen); }
+void h_cert_lookup(void)
+{
+	size_t n = nondet_size(); ASSUME(n <= NC);
+	for (int i = 0; i < NC; i++) { l_list[i] = (uint8_t)i; l_il[i] = nondet_size(); l_sl[i] = nondet_size(); ASSUME(l_il[i] >= 1 && l_il[i] <= 3 && l_sl[i] >= 1 && l_sl[i] <= 3); for (int j = 0; j < 3; j++) { l_iss[i][j] = nondet_u8(); l_ser[i][j] = nondet_u8(); } }
+	uint8_t wi[3], ws[3]; size_t wil = nondet_size(), wsl = nondet_size(); ASSUME(wil >= 1 && wil <= 3 && wsl >= 1 && wsl <= 3);
+	for (int j = 0; j < 3; j++) { wi[j] = nondet_u8(); ws[j] = nondet_u8(); }
+	const uint8_t *cert = 0; size_t certlen = 0;
+	int r = x509_certs_get_cert_by_issuer_and_serial_number(l_list, n, wi, wil, ws, wsl, &cert, &certlen);
+	int first = -1;
+	for (int i = NC - 1; i >= 0; i--) if ((size_t)i < n && same(l_iss[i], l_il[i], wi, wil) && same(l_ser[i], l_sl[i], ws, wsl)) first = i;
+	CHECK(r == 1 || r == 0, "found or not found");
+	CHECK((r == 1) == (first >= 0), "found exactly when some certificate has the wanted issuer and the wanted serial number (same length, same bytes)");
+	if (r == 1) { V_COVER("certificate found"); CHECK(cert == &l_list[first] && certlen == 1, "the first such certificate is returned"); }
+	else CHECK(cert == 0 && certlen == 0, "no certificate is returned otherwise");
+	V_REACH();
+}
+#elif defined(SCAN)
+/* ---- cms_enveloped_data_decrypt_from_der / cms_signed_and_enveloped_data_decipher_from_der: the RecipientInfos are scanned until the first one
+ * the offered key opens (non-matching ones are skipped, an error stops), the content is decrypted with THAT key, and (signed-and-enveloped) at least one
+ * SignerInfo is present and every SignerInfo verifies over H(header || content) ---- */
+#define NR 3
+#define NSI 2
+static uint8_t r_list[NR], si_list[NSI]; static size_t r_n, si_n; static int r_verdict[NR], si_verdict[NSI]; static int r_calls, si_calls, c_calls, c_verdict; static uint8_t c_key0; static size_t c_keylen; static int s_ver, s_dig;
+static const SM3_CTX *u_ctx, *v_ctx; static int u_n, v_upd_before;
+int cms_enveloped_data_from_der(int *version, const uint8_t **rcpt_infos, size_t *rcpt_infos_len, const uint8_t **enced, size_t *enced_len, const uint8_t **in, size_t *inlen)
+{ *version = s_ver; *rcpt_infos = r_list; *rcpt_infos_len = r_n; *enced = 0; *enced_len = 0; *inlen = 0; return 1; }
+int cms_signed_and_enveloped_data_from_der(int *version, const uint8_t **rcpt_infos, size_t *rcpt_infos_len, int *digest_algors, size_t *digest_algors_cnt, size_t max_digest_algors,
+	const uint8_t **enced, size_t *enced_len, const uint8_t **certs, size_t *certs_len, const uint8_t **crls, size_t *crls_len, const uint8_t **signer_infos, size_t *signer_infos_len, const uint8_t **in, size_t *inlen)
+{ *version = s_ver; *rcpt_infos = r_list; *rcpt_infos_len = r_n; digest_algors[0] = s_dig; *digest_algors_cnt = 1; *enced = 0; *enced_len = 0; *certs = 0; *certs_len = 0; *crls = 0; *crls_len = 0; *signer_infos = si_list; *signer_infos_len = si_n; *inlen = 0; return 1; }
+int cms_recipient_info_decrypt_from_der(const SM2_KEY *sm2_key, const uint8_t *rcpt_issuer, size_t rcpt_issuer_len, const uint8_t *rcpt_serial, size_t rcpt_serial_len,
+	uint8_t *out, size_t *outlen, size_t maxlen, const uint8_t **in, size_t *inlen)
+{
+	if (*inlen == 0) return -1;
+	int i = (*in)[0]; __CPROVER_assert(i < NR, "idx"); r_calls++; (*in)++; (*inlen)--;
+	if (r_verdict[i] == 1) { out[0] = (uint8_t)(0xa0 + i); *outlen = 16; }
+	return r_verdict[i];
+}
+int cms_enced_content_info_decrypt_from_der(int *enc_algor, const uint8_t *key, size_t keylen, int *content_type, uint8_t *content, size_t *content_len,
+	const uint8_t **shared_info1, size_t *shared_info1_len, const uint8_t **shared_info2, size_t *shared_info2_len, const uint8_t **in, size_t *inlen)
+{ c_calls++; c_key0 = key[0]; c_keylen = keylen; *content_type = OID_cms_data; *content_len = 4; return c_verdict; }
+int cms_content_info_header_to_der(int content_type, size_t content_len, uint8_t **out, size_t *outlen) { *out += 6; *outlen += 6; return 1; }
+void sm3_init(SM3_CTX *c) { u_n = 0; u_ctx = c; }
+void sm3_update(SM3_CTX *c, const uint8_t *d, size_t n) { u_n++; }
+int cms_signer_info_verify_from_der(const SM3_CTX *sm3_ctx, const uint8_t *certs, size_t certslen, const uint8_t **cert, size_t *certlen,
+	const uint8_t **issuer, size_t *issuer_len, const uint8_t **serial, size_t *serial_len, const uint8_t **authed_attrs, size_t *authed_attrs_len,
+	const uint8_t **unauthed_attrs, size_t *unauthed_attrs_len, const uint8_t **in, size_t *inlen)
+{
+	if (*inlen == 0) return -1;
+	int i = (*in)[0]; __CPROVER_assert(i < NSI, "idx"); v_ctx = sm3_ctx; v_upd_before = u_n; si_calls++; (*in)++; (*inlen)--;
+	return si_verdict[i];
+}
+void h_scan(void)
+{
+	r_n = nondet_size(); ASSUME(r_n <= NR); si_n = nondet_size(); ASSUME(si_n <= NSI);
+	for (int i = 0; i < NR; i++) { r_list[i] = (uint8_t)i; int v = nondet_int(); ASSUME(v == 1 || v == 0 || v == -1); r_verdict[i] = v; }
+	for (int i = 0; i < NSI; i++) { si_list[i] = (uint8_t)i; int v = nondet_int(); ASSUME(v == 1 || v == 0 || v == -1); si_verdict[i] = v; }
+	c_verdict = nondet_bool() ? 1 : -1; s_ver = nondet_int(); s_dig = nondet_int();
+	SM2_KEY key; memset(&key, 0, sizeof(key)); uint8_t iss[1] = {1}, ser[1] = {2}, content[16]; size_t content_len = 0; int ct;
+	const uint8_t *ri, *s1, *s2, *certs, *crls, *si; size_t ril, s1l, s2l, certsl, crlsl, sil; uint8_t in[1] = {0}; const uint8_t *p = in; size_t l = 1;
+#ifdef SIGNED_ENV
+	int ret = cms_signed_and_enveloped_data_decipher_from_der(&key, iss, 1, ser, 1, &ct, content, &content_len, &ri, &ril, &s1, &s1l, &s2, &s2l, &certs, &certsl, &crls, &crlsl, &si, &sil, NULL, 0, NULL, 0, &p, &l);
+#else
+	int ret = cms_enveloped_data_decrypt_from_der(&key, iss, 1, ser, 1, &ct, content, &content_len, &ri, &ril, &s1, &s1l, &s2, &s2l, &p, &l);
+#endif
+	/* the first RecipientInfo that is not skipped decides */
+	int first = -1; for (int i = NR - 1; i >= 0; i--) if ((size_t)i < r_n && r_verdict[i] != 0) first = i;
+	int opened = first >= 0 && r_verdict[first] == 1;
+	if (ret == 1) {
+		V_COVER("message opened");
+		CHECK(s_ver == CMS_version_v1, "version 1");
+		CHECK(opened, "some RecipientInfo was opened with the offered key, every earlier one was skipped as not matching");
+		CHECK(c_calls == 1 && c_verdict == 1 && c_keylen == 16 && c_key0 == (uint8_t)(0xa0 + first), "the content is decrypted with the key from that RecipientInfo");
+#ifdef SIGNED_ENV
+		CHECK(s_dig == OID_sm3, "digest SM3");
+		CHECK(si_n >= 1, "a signed-and-enveloped message without SignerInfo never verifies");
+		CHECK(si_calls == (int)si_n, "every SignerInfo was verified");
+		for (size_t i = 0; i < NSI; i++) if (i < si_n) CHECK(si_verdict[i] == 1, "every SignerInfo verification succeeded");
+		CHECK(v_ctx == u_ctx && v_upd_before == 2, "signers are checked against H(content-info header || content)");
+#endif
+	}
+#ifdef SIGNED_ENV
+	int sig_ok = si_n >= 1; for (size_t i = 0; i < NSI; i++) if (i < si_n && si_verdict[i] != 1) sig_ok = 0;
+	if (s_ver == CMS_version_v1 && s_dig == OID_sm3 && opened && c_verdict == 1 && sig_ok) CHECK(ret == 1, "a recipient that is not the first one opens the message as well");
+#else
+	if (s_ver == CMS_version_v1 && opened && c_verdict == 1) CHECK(ret == 1, "a recipient that is not the first one opens the message as well");
+#endif
+	V_REACH();
+}
 #elif defined(RCPT)
 /* ---- cms_recipient_info_decrypt_from_der: decrypts only the RecipientInfo whose issuer AND serial equal the offered certificate's ---- */
 static uint8_t r_issuer[3], r_serial[3]; static size_t r_il, r_sl; static int r_alg; static int d_calls, d_verdict;
